@@ -205,6 +205,17 @@ KWONLY = obj("Kw", F("a", INT, default=V("0")), F("b", STR), dargs="kw_only=True
 FROZEN = obj("Fz", F("a", INT), F("b", lst(STR), default=Fy("list")), dargs="frozen=True")
 SLOTS = obj("Sl", F("a", INT), F("b", opt(INT), default=V("None")), dargs="slots=True")
 
+INH_SRC = """
+@dataclass
+class PBase:
+    low: int
+    high: int = 0
+
+    def __post_init__(self):
+        if self.low > self.high:
+            self.low, self.high = self.high, self.low
+"""
+INH = obj("Inh", F("low", INT), F("high", INT, default=V("0")), F("z", INT, default=V("0")), bases="PBase")
 NZ = newtype("Nz", INT, min=0)
 NTF = obj(
     "NtF",
@@ -214,6 +225,7 @@ NTF = obj(
 )
 OBJECTS: Dict[str, Tuple[Sp, str]] = {
     "NtField": (NTF, ""),
+    "Inherit": (INH, INH_SRC),
     "ann(nt0)": (ann(NZ, max=5), ""),
     "list0": (ann(lst(INT), max_items=0), ""),
     "A": (A, ""),
